@@ -20,8 +20,13 @@ TRUSTED = [
 
 
 def mutate(prog, mod, old, new):
-    mp = prog.mutate(mod, old, new)
-    return None if mp is None else mp.overrides
+    """old/new may be lists of equal length: several replacements in the same module"""
+    olds, news = (old, new) if isinstance(old, list) else ([old], [new])
+    mp = prog
+    for o, n in zip(olds, news):
+        mp = mp.mutate(mod, o, n)
+        if mp is None: return None
+    return mp.overrides
 
 
 def run_A(ck, quals, canaries, prog=None):
